@@ -1,14 +1,22 @@
 #!/bin/bash
-# bin/mutant.sh <patch> <property> [tier]: apply a patch to /repo, run the property's check, undo the patch.
+# bin/mutant.sh <patch> <property> [tier]
+#   default: apply the patch to /repo, run the property's check, undo the patch (git -C /repo checkout -- .).
+#   with VERIF_SCRATCH=<dir>: apply it to a scratch copy <dir> of the repository instead (created with `git worktree add`), leave /repo
+#   alone, keep evidence in <dir>/.evidence - several of these can run side by side (bin/mutants_all.py does).
 # Prints DETECTED if the check exits 1 with a VIOLATION line, MISSED if it exits 0, BROKEN otherwise.
 set -u
 P="$(readlink -f "$1")"; PROP="$2"; TIER="${3:-quick}"
 cd /verif
-if ! git -C /repo apply --check "$P" 2>/dev/null; then echo "$PROP $(basename $P): patch does not apply"; exit 3; fi
-git -C /repo apply "$P"
-OUT=$(./check.py "$PROP" --tier "$TIER" 2>&1); RC=$?
-git -C /repo checkout -- . 
+TREE="${VERIF_SCRATCH:-/repo}"
+if ! git -C "$TREE" apply --check "$P" 2>/dev/null; then echo "$PROP $(basename $P): patch does not apply"; exit 3; fi
+git -C "$TREE" apply "$P"
+if [ "$TREE" = /repo ]; then
+  OUT=$(./check.py "$PROP" --tier "$TIER" 2>&1); RC=$?
+else
+  OUT=$(VERIF_REPO="$TREE" VERIF_EVIDENCE_DIR="$TREE/.evidence" VERIF_KEEP_BUILDS=40 ./check.py "$PROP" --tier "$TIER" 2>&1); RC=$?
+fi
+git -C "$TREE" checkout -- .
 if [ $RC -eq 1 ] && echo "$OUT" | grep -q "^VIOLATION property=$PROP"; then
   echo "$PROP $(basename $P): DETECTED ($(echo "$OUT" | grep -c '^VIOLATION') keys; first: $(echo "$OUT" | grep '^VIOLATION' | head -1 | cut -c1-200))"
-elif [ $RC -eq 0 ]; then echo "$PROP $(basename $P): MISSED"; 
+elif [ $RC -eq 0 ]; then echo "$PROP $(basename $P): MISSED";
 else echo "$PROP $(basename $P): BROKEN rc=$RC: $(echo "$OUT" | tail -3 | cut -c1-300)"; fi
